@@ -19,7 +19,7 @@ RULE = ("fault enumeration on real runs of csvdump/unspentcsvdump/balances. Inpu
         "(exit 0 and outputs byte-identical to the undisturbed run and no *.tmp) or (exit!=0 and no final-named file); (2) trace spec "
         "over the strace log of every traced run: a final name only ever appears through rename(tmp->final) and no write reaches a file "
         "after it carries its final name; (3) after SIGKILL no final-named file differs from the undisturbed output. "
-        "Mid-run faults: EMFILE/ENOENT/EACCES/EIO injected (strace) at every open and every read of a blk file; a blk file unlinked / shrunk while the run is suspended (SIGSTOP) after its first blocks; a blk file holding 255..1024 blocks of the range removed / emptied / cut: exit!=0, failing height = the block being fetched (hook log), no final-named file. Readers of stdout / stderr gone (closed pipe, reader that leaves after one line, /dev/full) with and without -vv: judged by oracle (1). distinct = (callback, fault kind, position class, output size class, outcome) signatures")
+        "Mid-run faults: EMFILE/ENOENT/EACCES/EIO injected (strace) at every open and every read of a blk file; a blk file unlinked / shrunk while the run is suspended (SIGSTOP) after its first blocks; a blk file holding 255..1024 blocks of the range removed / emptied / cut: exit!=0, failing height = the block being fetched (hook log), no final-named file. Termination signals (SIGINT, SIGTERM, SIGHUP; thorough: SIGQUIT, SIGUSR1, SIGPIPE) delivered in mid-run: judged by oracle (1). Readers of stdout / stderr gone (closed pipe, reader that leaves after one line, /dev/full) with and without -vv: judged by oracle (1). distinct = (callback, fault kind, position class, output size class, outcome) signatures")
 
 CALLBACKS = ["csvdump", "unspentcsvdump", "balances"]
 ERR_RE = re.compile(r"Error at height (\d+):")
@@ -528,6 +528,36 @@ def midrun_case(spec):
             _judge_failure(p, dump, ref, what, log, vv, hit)
             v.extend(vv)
             shapes.add("%s|%s-%s|%s|%s" % (cbname, call, err, "first" if k == 1 else "later", "fail" if p.rc else "exit0"))
+    elif kind == "signal":
+        # ^C, `timeout`, `kill`, a service manager stopping the job: the run is told to terminate in the middle of the chain. Whatever the
+        # process does about it (die at once - the default - or wind down), exit status 0 promises complete output
+        import signal as _signal
+        nblocks = spec.get("blocks", 1500)
+        chain = gen.simple_chain(rng, coin, nblocks, max_tx=2)
+        datadir.write_datadir(d, COINS[coin], harness.simple_layout(chain))
+        ref = reference_run(binary, d, coin, cbname, work, None, None)
+        counters["runs"] += 1
+        for signame in spec["signals"]:
+            harness.fresh(dump)
+            p, hitn = core.run_suspended(harness.cli(binary, d, coin, cbname, dump), {"RAYON_NUM_THREADS": "2", "RBP_VERIF_JITTER": "3"}, log,
+                                         pauses=(0.02,), send_signal=getattr(_signal, signame), timeout=300)
+            if p.timed_out:
+                raise Inconclusive("watchdog fired (signal in mid-run)")
+            counters["runs"] += 1
+            counters["signals_sent"] = counters.get("signals_sent", 0) + 1
+            if hitn:
+                counters["signals_sent_to_a_live_run"] = counters.get("signals_sent_to_a_live_run", 0) + 1
+            what = "%s, %s delivered after the first blocks of %d" % (cbname, signame, nblocks)
+            if p.rc == 0:
+                v.extend(outcome(p, dump, ref, what))
+            else:
+                # dying of the signal is fine at any moment (even after the output was committed); a partial final-named file never is
+                have = read_norm(dump)
+                for name, t in have.items():
+                    if is_final(name) and (name not in ref or ref[name] != t):
+                        v.append(viol("partial-final-file", "exit %s and the final-named file %s differs from the complete output (%s)" % (p.rc, name, what)))
+                        break
+            shapes.add("%s|signal-%s|%s|%s" % (cbname, signame, "hit" if hitn else "too-late", "exit0" if p.rc == 0 else "fail"))
     else:
         # a blk file disappears / shrinks while the run is under way (pruning node, a copy still in progress being restarted)
         nblocks = spec.get("blocks", 1500)
@@ -684,6 +714,9 @@ def plan(chk):
             specs.append(dict(case="midrun", kind="syscall", callback=cbname, coin=coins[n % 8], seed=chk.seed + i, n=n, blocks=12 + 6 * i,
                               assign=["round_robin", "contiguous", "random"][(ci + i) % 3], xor=(n % 2 == 0), max_k=None if chk.thorough else 10))
         n += 1
+        specs.append(dict(case="midrun", kind="signal", callback=cbname, coin=coins[n % 8], seed=chk.seed, n=n, blocks=1500,
+                          signals=["SIGINT", "SIGTERM", "SIGHUP"] + (["SIGQUIT", "SIGUSR1", "SIGPIPE"] if chk.thorough else [])))
+        n += 1
         specs.append(dict(case="midrun", kind="vanish", callback=cbname, coin=coins[n % 8], seed=chk.seed, n=n, blocks=1500,
                           actions=["unlink-later", "shrink-later", "shrink-open"] * (3 if chk.thorough else 1)))
         n += 1
@@ -718,7 +751,7 @@ def main():
     chk.finish(RULE, floor={"input_faults": 300, "input_faults:truncated": 200, "input_faults:offset-past-eof": 9, "input_faults:emptied": 6,
                             "input_faults:removed": 6, "fsize_faults": 40, "fsize_faults_hit_output": 10, "write_faults_hit": 12, "kill_points_hit": 30,
                             "trace_events": 30, "max_output_writes_in_one_run": 3, "bulk_faults": 9, "input_syscall_faults_hit": 20,
-                            "midrun_faults_hit_live_run": 3, "stdio_faults": 30},
+                            "midrun_faults_hit_live_run": 3, "stdio_faults": 30, "signals_sent_to_a_live_run": 6},
                assumptions=["SIGKILL 'at arbitrary times' is enumerated as SIGKILL at every syscall boundary that touches an output path",
                             "torn writes inside the kernel, power loss and fsync semantics are out of scope (not claimed by the property)",
                             "RLIMIT_FSIZE also limits LevelDB's own files: very small limits fail at index open (exit!=0, no output) — counted separately from faults that hit the output"],
